@@ -133,6 +133,7 @@ class Engine:
         self.npaths = 0
         self._feas_cache = {}
         self._axiom_keys = set()
+        self._nonneg = set()
         self.flat_ordinals = {}
         fk = 0
         for n in ast.walk(fnode):
@@ -180,6 +181,21 @@ class Engine:
     def distinct(self, seq):
         i, j = z3.Ints("di!0 dj!0")
         return z3.ForAll([i, j], z3.Implies(z3.And(0 <= i, i < j, j < SQ.length(seq)), SQ.at(seq, i) != SQ.at(seq, j)))
+
+    def is_nonneg(self, t):
+        """syntactic non-negativity (loop / comprehension indices, lengths, literals and their sums)"""
+        t = z3.simplify(t)
+        if z3.is_int_value(t):
+            return t.as_long() >= 0
+        if t.get_id() in self._nonneg:
+            return True
+        if z3.is_app(t):
+            nm = t.decl().name()
+            if nm.endswith(".len") or nm == "str.len":
+                return True
+            if t.decl().kind() == z3.Z3_OP_ADD:
+                return all(self.is_nonneg(c) for c in t.children())
+        return False
 
     def uses_axioms(self, fn, *args):
         key = (fn.__name__,) + tuple(repr(a) for a in args)
@@ -724,7 +740,7 @@ class Engine:
                 ln = SQ.length(base.t)
                 i = idx.t
                 self.require(st, "safe.index", n, z3.And(-ln <= i, i < ln), "IndexError")
-                pos = i if self.spec_mode else z3.simplify(z3.If(i < 0, ln + i, i))  # clause language: mathematical indices
+                pos = i if (self.spec_mode or self.is_nonneg(i)) else z3.simplify(z3.If(i < 0, ln + i, i))  # clause language: mathematical indices
                 if ty is TStr:
                     return V(TStr, z3.SubString(base.t, pos, 1))
                 return self.untup_lazy(V(ty.elem, SQ.at(base.t, pos)))
@@ -880,6 +896,7 @@ class Engine:
         # evaluate the body at an arbitrary index j (obligations inside are for every j)
         st.fresh_n += 1
         j = z3.Int(f"cj!{st.fresh_n}")
+        self._nonneg.add(j.get_id())
         inner = st.fork()
         inner.decisions = st.decisions
         rng = z3.And(0 <= j, j < ln)
@@ -1641,6 +1658,7 @@ class Engine:
         body_st = st.fork()
         self.havoc(body_st, names, attrs, s.body)
         i = self.fresh(body_st, TInt, "_i")
+        self._nonneg.add(i.t.get_id())
         body_st.assume(z3.And(0 <= i.t, i.t < ln))
         envi = {idx_name: i, "_n": V(TInt, ln)}
         envi.update(self.spec_env(body_st))
